@@ -641,3 +641,16 @@ where
         let _ = self.inner.streams.recv_eof(true);
     }
 }
+
+#[cfg(feature = "verif-hooks")]
+impl<T, P, B> Connection<T, P, B>
+where
+    T: AsyncRead + AsyncWrite,
+    P: Peer,
+    B: Buf,
+{
+    /// Read-only statistics snapshot (verification hook).
+    pub(crate) fn verif_snapshot(&self) -> crate::verif::Snapshot {
+        self.inner.streams.verif_snapshot()
+    }
+}
